@@ -18,6 +18,7 @@ RULE = (
     "One evaluation = one (converter, input) pair: standardize_prefix / standardize_curie / standardize_uri equal the "
     "linear-scan model, prefix and curie standardisation are idempotent, expand(standardize_curie(c)) == expand(c); on "
     "prefix-free maps standardize_uri is idempotent and compress(standardize_uri(u)) == compress(u). "
+    "Every case is checked on the same converter reached through seven histories (built at once; grown string by string with all queries issued after every mutation; split into whole records and merged; grown by case-insensitive merges; every record re-merged into itself case-insensitively; after calls that must be rejected; as by-standing input of every derivation whose results were then mutated). "
     "Non-trivial = the input is a CURIE-prefix synonym, goes through a URI-prefix synonym, or is a case variant of a "
     "different known value; distinct by hash of (records, delimiter, kind, input)."
 )
